@@ -29,8 +29,10 @@ ASSUME = [
     "_pingQueueLock, and the ordered list of layers whose send/receive was entered",
     "not modelled: Python's Lock has no owner (the model's owner field is ghost state); blocking is observed with "
     "a timeout (0.6 s) on a worker thread; the handshake after a reconnect is the rig's responder "
-    "(harness/c12rig.py); cipher-stream synchronisation after a frame is lost below the encryption point is "
-    "outside the lock model (see known finding oversize-send-consumes-nonce)",
+    "(harness/c12rig.py); cipher-stream synchronisation after a frame is lost below the encryption point by an "
+    "INJECTED fault at network/segments is outside the lock model (a real socket error ends the connection); a "
+    "frame too large for the segments layer is refused by the noise layer before encryption (repaired finding "
+    "oversize-send-consumes-nonce) and is judged without any resynchronisation",
 ]
 
 LAYERS = ("network", "segments", "noise", "coder", "logger", "axolotl_control", "axolotl_parallel",
@@ -103,7 +105,9 @@ FOLLOWUPS = [(0, ("send", "presence")), (1, ("recv", "ack")), (1, ("send", "iq_p
 
 REAL = {  # cause -> (dir of the failing op, op, model failspec (node, occurrence, mode), exception class)
     "unencodable": ("down", ("send", "unencodable"), (S(3), 0, 1), "AttributeError"),
-    "oversize": ("down", ("send", "oversize"), (S(1), 0, 1), "ValueError"),
+    # refused by the noise layer BEFORE it is encrypted (fix C12-oversize-refused-before-encryption): the send nonce
+    # is not consumed, so the follow-ups are judged like after any other failure (no peer resynchronisation)
+    "oversize": ("down", ("send", "oversize"), (S(2), 0, 1), "ValueError"),
     "not_transport_down": ("down", ("send", "presence"), (S(2), 0, 1), "MachineError"),
     "undecodable": ("up", ("recv", "garbage"), (U(3), 0, 1), "Exception"),
     "handler_valueerror": ("up", ("recv", "notification_unsupported"), (U(7), 0, 1), "ValueError"),
@@ -297,16 +301,11 @@ def run_impl(ctx, scn, seed):
             if cause in REAL and r is not None and r["outcome"] == "raise":
                 notes["fired"] += 1
             # cipher-stream resynchronisation (outside the lock model; see module docstring of c12rig)
-            lost_below_encryption = (cause == "oversize" or
-                                     (cause == "generic" and f["dir"] == "down" and f["layer"] <= 1
+            lost_below_encryption = ((cause == "generic" and f["dir"] == "down" and f["layer"] <= 1
                                       and f["op"][0] == "send") or
                                      (cause == "generic" and f["dir"] == "down" and f["layer"] <= 1
                                       and f["op"][0] == "recv"))
             lost_before_decryption = cause == "generic" and f["dir"] == "up" and f["layer"] <= 2
-            if cause == "oversize" and r is not None and r["outcome"] == "raise" and not any(rig.lock_table().values()):
-                probe = workers[1].run(lambda: rig.op_send("presence"), TIMEOUT)
-                if probe[0] == "done" and probe[1]["wire_error"]:
-                    notes["known"].append("oversize-send-consumes-nonce")
             if lost_below_encryption or lost_before_decryption:
                 rig.resync_peer()
         if scn["reconnect"]:
